@@ -279,7 +279,7 @@ C08_Step(s, e) ==
               (NT(<<"C08", "cpaused">>) /\ PodCreates(e) = {})
         \* "a canary resumes on unpause": with the unpause annotation (and no pause annotation) a canary that is not failed does not
         \* end a sync paused, whatever its pods look like (unpause overrides pausing, never failing)
-        /\ (role = "canary" /\ d.cUnpaused /\ ~d.cPaused /\ HasRS(e.state, r.id) /\ AllOK(StatusWrites(e, "ERS")) /\ FullSync(e)) =>
+        /\ (role = "canary" /\ GoodStrat(d) /\ d.cUnpaused /\ ~d.cPaused /\ HasRS(e.state, r.id) /\ AllOK(StatusWrites(e, "ERS")) /\ FullSync(e)) =>
               LET r2 == RSOf(e.state, r.id) IN
                 (~r2.conds.CanaryFailed.true) => (NT(<<"C08", "unpaused">>) /\ ~r2.conds.CanaryPaused.true)
         \* a sync that itself ends paused or failed creates nothing (shared with C06)
